@@ -257,10 +257,18 @@ func (k *Keeper) CleanHooks() *Keeper {
 }
 
 // PostTxProcessing delegate the call to the hooks. If no hook has been registered, this function returns with a `nil` error
-func (k *Keeper) PostTxProcessing(ctx sdk.Context, msg core.Message, receipt *ethtypes.Receipt) error {
+func (k *Keeper) PostTxProcessing(ctx sdk.Context, msg core.Message, receipt *ethtypes.Receipt) (err error) {
 	if k.hooks == nil {
 		return nil
 	}
+	// A panic inside a hook (e.g. an integer overflow in an SDK keeper that was handed an extreme amount taken
+	// from a log) is a failed hook: the transaction is reverted and charged for the gas it used. If it escaped,
+	// baseapp would abort the transaction after the fees have been deducted and nothing would be refunded.
+	defer func() {
+		if r := recover(); r != nil {
+			err = errorsmod.Wrapf(types.ErrPostTxProcessing, "hook panicked: %v", r)
+		}
+	}()
 	return k.hooks.PostTxProcessing(ctx, msg, receipt)
 }
 
